@@ -33,6 +33,7 @@ import re
 import typing
 import zlib
 
+from vf import c19_lexer as lx
 from vf import c19_twin as tw
 from vf.core import Bag, Ctx, HarnessError, load_known_findings, match_finding
 
@@ -151,6 +152,14 @@ EXCLUDED: typing.List[typing.Dict[str, typing.Any]] = [
         "(#858, 2.11.0) made '+' effective for comments. Upstream change, untouched by Nunavut.",
         "witnesses": [[" {#+ c #}", "lstrip_blocks"], ["\n\t{#+ c #}x", "trim+lstrip"]],
         "kept_in_grammar_as": "fragment c_plus, only with lstrip_blocks off",
+    },
+    {
+        "construct": "'+%}' (keep the newline after a block although trim_blocks is on), also on '{% endraw +%}'",
+        "reason": "the 2.11.dev snapshot's block-end rule is `(?:\\-%}\\s*|%})\\n?` (upstream code): '+' before '%}' is "
+        "lexed as an operator and the tag is a syntax error; upstream added '+%}' with the lexer rewrite released in "
+        "2.11.0. Upstream change, untouched by Nunavut. ('{% raw +%}' is a syntax error in both engines.)",
+        "witnesses": [["{% if b +%}\nx{% endif %}", "trim_blocks"], ["{% raw %}x{% endraw +%}\ny", "trim_blocks"]],
+        "kept_in_grammar_as": "not in the grammar; the raw sub-space uses '-' control and '{%+ raw' (lstrip_blocks on) only",
     },
 ]
 
@@ -1040,7 +1049,7 @@ def verify_exclusions() -> typing.Tuple[typing.List[dict], Bag]:
 def _work(job: typing.Tuple[str, typing.Any]) -> dict:
     kind, payload = job
     before = dict(tw.COUNT)
-    r = {"o1": o1_work, "o2": o2_work, "o3": o3_work}[kind](payload)
+    r = {"o1": o1_work, "o2": o2_work, "o3": o3_work, "lx": lx.work}[kind](payload)
     return {"kind": kind, "count": {k: tw.COUNT[k] - before[k] for k in before}, **r}
 
 
@@ -1049,6 +1058,8 @@ def eval_case(case: dict) -> typing.Optional[typing.Tuple[dict, str]]:
     o = case.get("oracle")
     if o == "plain":
         return o1_eval_case(case)
+    if o == "lexer":
+        return lx.eval_case(case)
     if o == "marker":
         for sig, c, what in o2_eval(case, [case["ctx"]]):
             if c.get("mode") == case.get("mode"):
@@ -1093,7 +1104,15 @@ def run(ctx: Ctx) -> int:
         if off or on:
             o2.append((case, tuple(a for a, use in ((False, off), (True, on)) if use)))
             o2_ae_n += int(on)
+    lxc: typing.List[dict] = []
+    lx_total = 0
+    for space in (lx.line_space(), lx.raw_space()):
+        for case, core in space:
+            lx_total += 1
+            if core or ctx.in_slice("LX:" + repr(sorted(case.items(), key=str)), 64):
+                lxc.append(case)
     jobs: typing.List[typing.Tuple[str, typing.Any]] = [("o3", None)]
+    jobs += [("lx", lxc[i : i + 400]) for i in range(0, len(lxc), 400)]
     jobs += [("o2", o2[i : i + 60]) for i in range(0, len(o2), 60)]
     jobs += [("o1", o1[i : i + 250]) for i in range(0, len(o1), 250)]
     results = ctx.pool_map(_work, jobs)
@@ -1105,6 +1124,8 @@ def run(ctx: Ctx) -> int:
     outcomes: typing.Set[int] = set()
     o2st: typing.Dict[str, int] = {}
     o3st: typing.Dict[str, typing.Any] = {}
+    lxst: typing.Dict[str, int] = {}
+    ledger: typing.Set[typing.Tuple[str, str]] = set()
     for r in results:
         ctx.bag.merge(r["bag"])
         for k in count:
@@ -1115,6 +1136,13 @@ def run(ctx: Ctx) -> int:
             outcomes |= r["outcomes"]
             for s in r["samples"]:
                 if sum(1 for x in ctx.samples if x.get("oracle") == "plain") < 2:
+                    ctx.samples.append(s)
+        elif r["kind"] == "lx":
+            for k, v in r["st"].items():
+                lxst[k] = lxst.get(k, 0) + v
+            ledger |= r["ledger"]
+            for s in r["samples"]:
+                if not any(x.get("oracle") == "lexer" for x in ctx.samples):
                     ctx.samples.append(s)
         elif r["kind"] == "o2":
             for k, v in r["st"].items():
@@ -1158,6 +1186,12 @@ def run(ctx: Ctx) -> int:
         "o1 autoescape: stock results with escaped text": tot["escaping_observable"],
         "o2 autoescape: expected texts with escapes": o2st.get("autoescape_expected_text_has_escapes", 0),
         "o2 autoescape: expected texts with unescaped markup": o2st.get("autoescape_expected_text_has_unescaped_markup", 0),
+        "lexer spaces: templates stock rendered": lxst.get("stock_rendered", 0),
+        "lexer spaces: templates stock rejected": lxst.get("stock_raised", 0),
+        "lexer spaces: stock token streams": lxst.get("stock_token_streams", 0),
+        "lexer spaces: every root alternative taken by stock's lexer under every whitespace combination": int(
+            all((lx.ws_name(ws), a) in ledger for ws in lx.WS8 for a in tw.ROOT_ALTERNATIVES)
+        ),
         "o3 assertions expected to raise": o3st.get("assert_expected_to_raise", 0),
         "o3 assertions expected to pass": o3st.get("assert_expected_to_pass", 0),
         "o3 usequery distinct reference outputs (>=6)": int(o3st.get("usequery_distinct_outputs", 0) >= 6),
@@ -1174,8 +1208,8 @@ def run(ctx: Ctx) -> int:
     if failed:
         ctx.stats["vacuity_guards_failed_but_violations_reported"] = failed
 
-    evals = tot["evals"] + o2st.get("evals", 0) + o3st.get("assert_evals", 0) + o3st.get("usequery_evals", 0)
-    nontrivial = tot["nontrivial"] + o2st.get("nontrivial", 0) + o3st.get("assert_expected_to_raise", 0)
+    evals = tot["evals"] + lxst.get("evals", 0) + o2st.get("evals", 0) + o3st.get("assert_evals", 0) + o3st.get("usequery_evals", 0)
+    nontrivial = tot["nontrivial"] + lxst.get("nontrivial", 0) + o2st.get("nontrivial", 0) + o3st.get("assert_expected_to_raise", 0)
     ctx.stats.update(
         template_compilations=count["compiles"],
         renders=count["renders"],
@@ -1192,6 +1226,10 @@ def run(ctx: Ctx) -> int:
         o1_both_rendered=tot["both_ok"],
         o1_both_raised=tot["both_raise"],
         o1_both_raised_different_family=tot["family_mismatch"],
+        lexer_space_cases=len(lxc),
+        lexer_space=lx_total,
+        lexer=lxst,
+        lexer_root_alternatives_x_whitespace_combinations_seen_in_stock=len(ledger),
         o2_placements=len(o2),
         o2_space=o2_total,
         o2=o2st,
@@ -1214,6 +1252,8 @@ def run(ctx: Ctx) -> int:
         f"fragments, <=2 fragments in each of {len(WRAPPERS)} wrappers, 1 fragment in each ordered wrapper pair) x "
         f"{len(tw.FLAGS)} flag sets x LF/CRLF x {len(CTXS)} contexts, plus the autoescape sub-space {o1a_n} of {o1a_total} "
         f"templates over {len(HTML_FRAGMENTS)} HTML/Markup fragments x autoescape off/on x the same environments; "
+        f"lexer sub-spaces (line statements/comments x 9 prefix configurations, raw sections; all 8 trim/lstrip/"
+        f"keep_trailing_newline combinations; rendering and token stream): {len(lxc)} of {lx_total} cases; "
         f"O2: {len(o2)} of {o2_total} placements ({len(CONSTRUCTS)} "
         f"constructs x {len(ENCLOSURES)} enclosures x {len(LEADS)} leads x {len(TRAILS)} trails x {len(WS)} indentations)"
         f" x flags x line endings x contexts, {o2_ae_n} of them also with autoescape on; O3: {o3st.get('assert_evals')} assertions, "
